@@ -52,6 +52,7 @@ pub fn all_scenarios() -> Vec<(&'static str, &'static str, &'static str)> {
         ("tailsplice", "default", "C10"),
         ("tcpstream", "random", "C14"),
         ("tcpstream", "sweep", "C14"),
+        ("tcpstream", "backlog", "C14"),
     ]
     // ("tcpstream", "lifetime") is deterministic by construction but costs seconds per run: it is
     // left out of the determinism self-test's sample
@@ -135,9 +136,9 @@ pub fn plan(prop: &str, thorough: bool) -> Option<Plan> {
         ),
         "C14" => codec_plan(
             "exploration",
-            vec![b("tcpstream", "random", 200_000, 6_000_000, thorough), b("tcpstream", "sweep", 15_000, 200_000, thorough), b("tcpstream", "lifetime", 1, 8, thorough)],
-            "lifetime profile: one long-lived connection per evaluation, more than 2^32 bytes (65 600 maximum-size frames) through a single TcpBuffer with chunking variations along the way and densely around the 2^31/2^32 cumulative-byte marks; random profile: 1..3 connections one after the other (the previous buffer dropped, possibly with unread bytes), each one stream of 1..6 frames (lengths 0..3, around 255/256, up to 65535; payloads that look like length prefixes) cut into segments (1-byte, all at once, 1..3 bytes, random) with push/pull interleavings (pull before data, drain after each push, random pulls, single pull per push, drain only at the end, repeated pulls on an incomplete frame) and an optional connection cut, every pull compared with the frame model; sweep profile: for each drawn stream of <= 3 frames and <= 12 bytes ALL 2^(n-1) segmentations x {drain after each push, drain at end} (evaluations counts each pattern); non-trivial = >= 2 segments or >= 2 frames; distinct = distinct event-log hash / distinct swept stream",
-            vec!["fault.empty_push"],
+            vec![b("tcpstream", "random", 200_000, 6_000_000, thorough), b("tcpstream", "sweep", 15_000, 200_000, thorough), b("tcpstream", "backlog", 48, 600, thorough), b("tcpstream", "lifetime", 1, 8, thorough)],
+            "backlog profile: the reader falls behind - 300..131 075 tiny complete frames (mostly empty) wait in one TcpBuffer at once (three runs in ten cross 65 535/65 536/65 537 waiting frames), pushed at once / in chunks of up to 4 KB / in halves / two bytes at a time, occasional pulls meanwhile, then drained against the frame model; random profile also: one connection in 24 carries a train of 40..1500 tiny frames; lifetime profile: one long-lived connection per evaluation, more than 2^32 bytes (65 600 maximum-size frames) through a single TcpBuffer with chunking variations along the way and densely around the 2^31/2^32 cumulative-byte marks; random profile: 1..3 connections one after the other (the previous buffer dropped, possibly with unread bytes), each one stream of 1..6 frames (lengths 0..3, around 255/256, up to 65535; payloads that look like length prefixes) cut into segments (1-byte, all at once, 1..3 bytes, random) with push/pull interleavings (pull before data, drain after each push, random pulls, single pull per push, drain only at the end, repeated pulls on an incomplete frame) and an optional connection cut, every pull compared with the frame model; sweep profile: for each drawn stream of <= 3 frames and <= 12 bytes ALL 2^(n-1) segmentations x {drain after each push, drain at end} (evaluations counts each pattern); non-trivial = >= 2 segments or >= 2 frames; distinct = distinct event-log hash / distinct swept stream",
+            vec!["fault.empty_push", "probe.backlog_of_65536_or_more_complete_frames"],
         ),
         "C17" => codec_plan(
             "fault_enumeration",
